@@ -6,7 +6,7 @@ ROOT = os.path.dirname(os.path.dirname(os.path.abspath(__file__)))
 # id -> (category, technique, level text, level note, design ref)
 CHECKS = {
  "C01": ("exploration", "property-based testing (proptest, shrinking): generated A/V histories, round-trip through an independent ISO-BMFF reader",
-         "Every sample-table entry of every generated file is dereferenced and compared byte-for-byte with the submitted frame in MP4 framing; ranges must tile the mdat payload. Exploration of generated histories (no exhaustiveness): the right level because the property quantifies over unbounded histories and sizes.",
+         "Every sample-table entry of every generated file is dereferenced and compared byte-for-byte with the submitted frame in MP4 framing; ranges must tile the mdat payload. A fixed list of long / large recordings (1 100 .. 1 048 700 samples, single samples to 16 MiB, files beyond 2^24 / 2^31 bytes) runs through the same oracle. Exploration of generated histories (no exhaustiveness): the right level because the property quantifies over unbounded histories and sizes.",
          "Trusted: harness reader (stsc/stco/stsz/stss resolution), generator-side expected framing, rustc/proptest.", "3/C01"),
  "C02": ("exploration", "property-based testing: generated histories, strict recursive box-grammar validity predicate",
          "Every emitted stream is parsed by a strict walker that fails on one byte of slack/overrun, then mandatory boxes and table counts are checked.",
@@ -27,7 +27,7 @@ CHECKS = {
          "Every call of every generated history is judged must-accept / must-reject(class set) / unconstrained by the model; accept, reject and error-naming clauses are checked. Unconstrained cases are counted, and the model then follows the implementation.",
          "Trusted: the contract model in harness/src/contract.rs (appendix C of DESIGN.md).", "3/C04"),
  "C05": ("exploration", "property-based testing: metamorphic relation (history vs history with its rejected calls deleted)",
-         "Decisions, statistics and output bytes of H and H-minus-rejected-calls must be identical, for the progressive and the fragmented muxer.",
+         "Decisions, statistics and output bytes of H and H-minus-rejected-calls must be identical, for the progressive and the fragmented muxer; each rejected call re-inserted alone must be rejected again; fixed lists add rejection bursts (1..300 calls), long accepted runs after a rejection and more than 2^32 rejected bytes.",
          "Purely differential; no model needed.", "3/C05"),
  "C06": ("exploration", "property-based testing: recording sink + accounting model over histories with finish attempts anywhere",
          "A sink that tags each write with the API call in progress shows that only the one successful finish writes; delivered bytes, frame counts, byte count and duration are recomputed independently.",
@@ -48,9 +48,9 @@ CHECKS = {
          "All strings over {00,01,03,AB} up to length 10 (quick) / 13 (thorough) and all 8192 ADTS lengths x flag x buffer relation are enumerated; constructive NAL lists and random biased strings are generated.",
          "Sub-spaces are exhaustive, the property as a whole (all byte strings) is explored. Zero-payload ADTS excluded while that finding is open.", "3/C14"),
  "C16": ("exploration", "boundary-directed property-based testing: generators straddling 2^8/2^16/2^31/2^32/2^53/2^64, exact recomputation of every numeric field or a justified error",
-         "Either a call fails and the value really does not fit, or every field read back equals the exact value from the history. Nine narrowing sites are listed open findings by signature. 4 GiB limits are not explored.",
+         "Either a call fails and the value really does not fit, or every field read back equals the exact value from the history. Nine narrowing sites are listed open findings by signature. The 4 GiB limits (mdat size, chunk offsets) are probed by a fixed list of ~4 GiB recordings (two in the quick tier, seven in the thorough tier), not searched; long recordings up to 1 048 700 samples run through the same oracle.",
          "Trusted: exact tick arithmetic; reader field widths per version.", "3/C16"),
- "C18": ("exploration", "exhaustive enumeration (all 26^3 language codes; key days of every year quick / every day 1970-9999 thorough) + property-based titles with a metadata/no-metadata differential",
+ "C18": ("exploration", "exhaustive enumeration (all 26^3 language codes; every day 1970-9999 at two instants quick / three instants thorough, every second of whole days) + property-based titles with a metadata/no-metadata differential",
          "Independent civil-from-days calendar, 5-bit language unpacking, udta decoder; isolation by differential description.",
          "ISO-8601 claimed to year 9999; beyond only termination (10 s deadline).", "3/C18"),
  "C19": ("exploration", "property-based testing over configurations with strict specification-derived decoders per box and record",
